@@ -5,7 +5,7 @@ import shutil
 import subprocess
 import time
 
-from . import weave, lexer
+from . import weave, lexer, proc
 from .weave import VERIF, WeaveError
 
 KANI_SRC = os.path.join(VERIF, 'kani')
@@ -54,15 +54,7 @@ def run_harness(crate_dir, harness, timeout=1500, extra=None):
     env = dict(os.environ)
     env['CARGO_NET_OFFLINE'] = 'true'
     t0 = time.time()
-    try:
-        p = subprocess.run(cmd, cwd=crate_dir, env=env, stdout=subprocess.PIPE, stderr=subprocess.STDOUT, timeout=timeout)
-        out = p.stdout.decode(errors='replace')
-        rc = p.returncode
-        timed_out = False
-    except subprocess.TimeoutExpired as e:
-        out = (e.stdout or b'').decode(errors='replace')
-        rc = -9
-        timed_out = True
+    out, _, rc, timed_out = proc.run(cmd, timeout, cwd=crate_dir, env=env, merge_stderr=True)
     wall = time.time() - t0
     m = re.search(r'\*\* (\d+) of (\d+) failed', out)
     failed, total = (int(m.group(1)), int(m.group(2))) if m else (None, None)
